@@ -312,23 +312,39 @@ structure Count where
   exhausted : Bool := false
   deriving Repr
 
+/-- candidate images of one generator: (image, inverse, multiplicity) -/
+abbrev Cand := Array Nat × Array Nat × Nat
+
 /-- assign images to generators `m, m+1, …` (n = number still unassigned), checking every
-    relator as soon as all its generators have images -/
+    relator as soon as all its generators have images.  `mult` is the number of tuples the
+    current branch stands for (the first generator only runs over the least member of each
+    conjugacy class of S_k, weighted by the class size; a tuple that is least among its
+    conjugates has such a first component, so classes are still counted one by one). -/
 def search (k : Nat) (all : List (Array Nat × Array Nat)) (relsAt : Array (List (List Int))) :
-    Nat → Array (Array Nat) → Array (Array Nat) → Count → Count
-  | 0, ps, _, c =>
+    Nat → List Cand → Nat → Array (Array Nat) → Array (Array Nat) → Count → Count
+  | 0, _, mult, ps, _, c =>
     if transitive k ps then
-      { c with homs := c.homs + 1, classes := c.classes + (if isCanonical all ps then 1 else 0) }
+      { c with homs := c.homs + mult, classes := c.classes + (if isCanonical all ps then 1 else 0) }
     else c
-  | n + 1, ps, qs, c =>
-    all.foldl (fun (c : Count) (pq : Array Nat × Array Nat) =>
+  | n + 1, cands, mult, ps, qs, c =>
+    cands.foldl (fun (c : Count) (pq : Cand) =>
       if c.exhausted then c
       else if c.budget == 0 then { c with exhausted := true }
       else
         let c := { c with budget := c.budget - 1 }
         let ps' := ps.push pq.1
-        let qs' := qs.push pq.2
-        if (relsAt.getD ps'.size []).all (relHolds k ps' qs') then search k all relsAt n ps' qs' c else c) c
+        let qs' := qs.push pq.2.1
+        if (relsAt.getD ps'.size []).all (relHolds k ps' qs') then
+          search k all relsAt n (all.map fun s => (s.1, s.2, 1)) (mult * pq.2.2) ps' qs' c
+        else c) c
+
+/-- the least member of every conjugacy class of S_k with the size of the class -/
+def classReps (all : List (Array Nat × Array Nat)) : List Cand :=
+  all.filterMap fun (p, pInv) =>
+    let conj := all.map fun (s, sInv) => conjTuple #[p] s sInv
+    let me := p.toList
+    if conj.all (lexLe me ·) then some (p, pInv, (conj.filter (· == me)).length |> fun fix => all.length / fix)
+    else none
 
 /-- (number of transitive homomorphisms to S_k, number of conjugacy classes of subgroups of
     index k); `none` when the node budget is used up.  The number of subgroups of index k is the
@@ -339,7 +355,7 @@ def subgroupCounts (p : Pres) (k : Nat) (budget : Nat) : Option (Nat × Nat) :=
     p.rels.foldl (fun (a : Array (List (List Int))) w =>
       let m := w.foldl (fun m y => max m y.natAbs) 0
       a.setIfInBounds m (w :: a.getD m [])) (Array.replicate (p.ngens + 1) [])
-  let c := search k all relsAt p.ngens #[] #[] { budget := budget }
+  let c := search k all relsAt p.ngens (classReps all) 1 #[] #[] { budget := budget }
   if c.exhausted then none else some (c.homs, c.classes)
 
 /-! ## invariant (c): order by Todd–Coxeter (HLT, trivial subgroup, coset limit) -/
